@@ -82,7 +82,7 @@ fn verify_all_pure(cx: &mut Ctx, sig: &[u8; 64], msg: &[u8], pk: &[u8; 32], case
     }
     let mut sm = sig.to_vec();
     sm.extend_from_slice(msg);
-    let mut m = vec![0u8; msg.len()];
+    let mut m = stale(msg.len());
     if let Some(r) = call(cx, "C06|crypto_sign_open", "crypto_sign_open", case, || crypto_sign_open(&mut m, &sm, pk)) {
         let ok = r.is_ok();
         if ok && m != msg {
@@ -171,12 +171,12 @@ pub fn run(cx: &mut Ctx) {
 
             // ---- pure mode
             let want = na::sign_detached(&msg, &nsk);
-            let mut sig = [0u8; 64];
+            let mut sig = stale_arr::<64>();
             if let Some(r) = call(cx, "C06|crypto_sign_detached", "crypto_sign_detached", case, || crypto_sign_detached(&mut sig, &msg, &sk)) {
                 expect(cx, "C06|crypto_sign_detached|unexpected_err", r.is_ok(), case);
                 expect_eq(cx, "C06|crypto_sign_detached|mismatch_vs_libsodium", &sig, &want, case);
             }
-            let mut sm = vec![0u8; len + 64];
+            let mut sm = stale(len + 64);
             if let Some(r) = call(cx, "C06|crypto_sign", "crypto_sign", case, || crypto_sign(&mut sm, &msg, &sk)) {
                 expect(cx, "C06|crypto_sign|unexpected_err", r.is_ok(), case);
                 expect_eq(cx, "C06|crypto_sign|mismatch_vs_libsodium", &sm, &na::sign(&msg, &nsk), case);
@@ -199,7 +199,7 @@ pub fn run(cx: &mut Ctx) {
 
             // ---- pre-hashed mode
             let want_ph = na::sign_ph_create(&msg, &nsk);
-            let mut sig_ph = [0u8; 64];
+            let mut sig_ph = stale_arr::<64>();
             if let Some(r) = call(cx, "C06|crypto_sign_final_create", "crypto_sign_final_create", case, || {
                 let mut st = crypto_sign_init();
                 crypto_sign_update(&mut st, &msg);
@@ -289,7 +289,7 @@ pub fn run(cx: &mut Ctx) {
                 for cut in [1usize, 63, 64, 65] {
                     if cut <= smv.len() {
                         let t = &smv[..smv.len() - cut];
-                        let mut m = vec![0u8; t.len().saturating_sub(64)];
+                        let mut m = stale(t.len().saturating_sub(64));
                         let want_ok = na::sign_open(t, &npk).is_some();
                         if let Some(r) = call(cx, "C06|crypto_sign_open", "crypto_sign_open", case, || crypto_sign_open(&mut m, t, &npk)) {
                             expect(cx, "C06|crypto_sign_open|decision_differs_from_libsodium|truncated", r.is_ok() == want_ok, || json!({"cut":cut,"case":case()}));
